@@ -72,11 +72,41 @@ def run(ctx):
                 r = m.resolve_name(g.module, "foldline")
                 if isinstance(r, FuncInfo) and r.qualname == f.qualname:
                     callers.append((g, c))
-    for g, c in callers:
-        ctx.check(len(c.args) == 1 and not c.keywords, "C06/EMIT",
-                  f"caller {g.qualname} uses defaults",
-                  f"`{dump(c)}` overrides limit/fold_sep: the bound is proved "
-                  f"for the defaults only", g.loc(c), detail="foldline(self)")
+    # what the serialiser actually hands to foldline (interpreted, E7): a caller may spell the
+    # call in any way - pass-through keyword arguments with the same defaults included - as long
+    # as Contentline(...).to_ical() folds with the values the bound is proved for
+    if callers:
+        from ..absint import Interp, Closure as _Closure, ClassVal as _ClassVal, AbsRaise as _AbsRaise, \
+            Unsupported as _Unsupported
+        seen = []
+
+        class Rec(Interp):
+            pass
+        it = Rec(m)
+        pnames = [a.arg for a in f.node.args.args]
+
+        def rec(self_, args, kwargs, _f=f):
+            vals = dict(zip(pnames, args))
+            vals.update(kwargs)
+            seen.append((vals.get(limit_p, limit), vals.get(sep_p, sep)))
+            del self_.contracts[_f.qualname]
+            try:
+                return self_.call(_Closure(_f), list(args), dict(kwargs))
+            finally:
+                self_.contracts[_f.qualname] = rec
+        it.contracts[f.qualname] = rec
+        try:
+            cl = it.instantiate(m.cls("parser.Contentline"), ["X-NAME:" + "v" * 100], {})
+            it.call(it.getattr(cl, "to_ical"), [], {})
+        except (_AbsRaise, _Unsupported) as e:
+            raise AnalysisError(f"Contentline.to_ical leaves the abstract interface: {e}")
+        used = sorted(set((l if isinstance(l, int) else repr(l), sp if isinstance(sp, str) else repr(sp))
+                          for l, sp in seen), key=repr)
+        ctx.check(bool(seen) and all(l == limit and sp == sep for l, sp in seen), "C06/EMIT",
+                  "the serialiser folds with the proved limit and separator",
+                  f"Contentline.to_ical() calls foldline with (limit, fold_sep) = {used}; the bound is "
+                  f"proved for the defaults ({limit}, {sep!r}) only", callers[0][0].loc(callers[0][1]),
+                  detail=f"foldline(limit={limit}, fold_sep={sep!r})")
     if not callers:
         # the serialiser does not fold through foldline: nothing proved about foldline says
         # anything about the bytes that are written
